@@ -2,6 +2,7 @@ package main
 
 import (
 	"bytes"
+	"encoding/hex"
 	"encoding/json"
 	"fmt"
 	"os"
@@ -41,6 +42,11 @@ func cacheChild() {
 	if err := json.NewDecoder(os.Stdin).Decode(&job); err != nil {
 		fmt.Fprintln(os.Stderr, "cachechild:", err)
 		os.Exit(2)
+	}
+	for i, d := range job.Docs {
+		if raw, err := hex.DecodeString(d); err == nil {
+			job.Docs[i] = string(raw)
+		}
 	}
 	var spawned, exited, swept atomic.Int64
 	y := func(p string) {
@@ -232,7 +238,13 @@ func cacheChild() {
 func runCacheChild(job cacheJob) ([]cacheObs, string) {
 	self, _ := os.Executable()
 	cmd := exec.Command(self, "cachechild")
-	b, _ := json.Marshal(job)
+	// documents travel as hex: JSON would replace bytes that are not valid UTF-8
+	hexJob := job
+	hexJob.Docs = make([]string, len(job.Docs))
+	for i, d := range job.Docs {
+		hexJob.Docs[i] = hex.EncodeToString([]byte(d))
+	}
+	b, _ := json.Marshal(hexJob)
 	cmd.Stdin = bytes.NewReader(b)
 	var out, errb bytes.Buffer
 	cmd.Stdout = &out
@@ -290,9 +302,18 @@ var cacheDocs = []string{
 	// a document whose head the renderer READS while rendering (mj-class with the name not written last, mj-attributes
 	// defaults, an inline style rule): a cached tree that a render has modified shows up as a different second result
 	`<mjml><mj-head><mj-attributes><mj-class color="#ff0000" name="red" font-size="20px"/><mj-text padding="1px" bogus-default="x"/><mj-all font-family="Arial"/></mj-attributes><mj-style inline="inline">.k { color: blue; }</mj-style><mj-raw><meta name="raw-in-head" content="1"/></mj-raw></mj-head><mj-body><mj-section><mj-column><mj-text mj-class="red" css-class="k">Doc C</mj-text><mj-text>&nbsp;edges kept&#160;</mj-text><mj-text>&#xA0;</mj-text><mj-button href="u">&nbsp;b&nbsp;</mj-button><mj-text color="#00ff00" align="center" bogus="1">Doc C2 <span class="k" style="margin:0">s</span></mj-text><mj-table><tr class="k" style="height:9px"><td style="padding:1px" class="k" align="left">Tom &amp; Jerry, 1 &lt; 2 &#38; 3 &gt; 2</td></tr></mj-table><mj-button href="u"><b class="k" style="top:0">B &amp; b</b> &lt;i&gt;</mj-button><mj-raw><i style="left:0" class="k">r</i></mj-raw><mj-accordion><mj-accordion-element><mj-accordion-title>Q &amp; A</mj-accordion-title><mj-accordion-text>1 &lt; 2</mj-accordion-text></mj-accordion-element></mj-accordion><mj-navbar><mj-navbar-link href="/a?x=1&amp;y=2">N &amp; M</mj-navbar-link></mj-navbar><mj-social><mj-social-element name="facebook" href="h">S &amp; T</mj-social-element></mj-social></mj-column><mj-raw><p>raw between columns</p></mj-raw></mj-section></mj-body></mjml>`,
+	// documents that differ only in bytes that are not valid UTF-8 (a comment inside mj-raw, copied byte for byte; a file saved
+	// in Latin-1), and the same with the replacement character written out: a key computed over decoded characters instead
+	// of bytes folds them together
+	"<mjml><mj-body><mj-section><mj-column><mj-raw><!-- caf\xe9 --></mj-raw><mj-text>L1</mj-text></mj-column></mj-section></mj-body></mjml>",
+	"<mjml><mj-body><mj-section><mj-column><mj-raw><!-- caf\xe8 --></mj-raw><mj-text>L1</mj-text></mj-column></mj-section></mj-body></mjml>",
+	"<mjml><mj-body><mj-section><mj-column><mj-raw><!-- caf\uFFFD --></mj-raw><mj-text>L1</mj-text></mj-column></mj-section></mj-body></mjml>",
 }
 
-const cacheOkBits = "110111111"
+const cacheOkBits = "110111111111"
+
+// headReadingDoc: index of the document whose head the renderer reads while rendering
+const headReadingDoc = 8
 
 type predicted struct {
 	out                     string
@@ -328,7 +349,7 @@ func (h cacheHist) all() []string { return append(append([]string{}, h.prefix...
 // compareCache runs one history on the model and on the implementation.
 func compareCache(drv *DriverPool, h cacheHist, res *Result, prop string, checkC14 bool) {
 	ops := h.all()
-	hs := "0,1,2,3,4,5,6,7,8"
+	hs := "0,1,2,3,4,5,6,7,8,9,10,11"
 	if h.hashes != nil {
 		var p []string
 		for _, x := range h.hashes {
@@ -370,7 +391,7 @@ func compareCache(drv *DriverPool, h cacheHist, res *Result, prop string, checkC
 	res.Programs++
 	res.DisagreementsChecked += len(ops)
 	res.mu.Unlock()
-	in := map[string]interface{}{"ops": ops, "hashes": h.hashes, "docs": "cacheDocs (A, B, unparsable, invalid-attribute, same behind two blank lines, A + trailing whitespace, raw content over several lines with LF / with CRLF line ends, head-reading document)"}
+	in := map[string]interface{}{"ops": ops, "hashes": h.hashes, "docs": "cacheDocs (A, B, unparsable, invalid-attribute, same behind two blank lines, A + trailing whitespace, raw content over several lines with LF / with CRLF line ends, head-reading document, three documents differing only in bytes that are not valid UTF-8 / the replacement character)"}
 	if crash != "" || len(obs) != len(ops) {
 		// a crash is an implementation failure: no configuration or history may take the process down (C14/C13)
 		res.Violate(Violation{Sig: "process-crash|" + canonHist(h), Kind: "history", What: "cache history crashed or hung the process: " + crash, Input: in})
@@ -578,7 +599,7 @@ func cacheHistories(tier string, seed int64, withConfigs bool) []cacheHist {
 			if fast {
 				o = r.Pick(append(falpha, "rc0", "rc1", "rc3"))
 			} else {
-				o = r.Pick(append(alpha, "rc0", "rc1", "rc0", "rc8", "rc8", "ru8", "rcd0", "rcd8", "rud0", "rcd1", "rc6", "rc7", "rc7", "ru6"))
+				o = r.Pick(append(alpha, "rc0", "rc1", "rc0", "rc8", "rc8", "ru8", "rcd0", "rcd8", "rud0", "rcd1", "rc6", "rc7", "rc7", "ru6", "rc9", "rc10", "rc11"))
 			}
 			h.ops = append(h.ops, o)
 			if fast && o != "s" {
@@ -663,7 +684,7 @@ func cfgOps(ttl int64) []string {
 
 func runCacheProp(prop string) runFn {
 	return func(res *Result, tier string, seed int64, replay string) {
-		res.Rule = "histories over {cached render of A / A' (one byte differs) / unparsable / invalid-attribute doc / the same behind blank lines / A with trailing whitespace / a document with mj-class, mj-attributes, inline style and an invalid attribute after valid ones, uncached render, advance TTL/2, advance TTL, stop}; compilations with debug tags on and off over one cached tree (in every order, across expiry and stop / restart); exhaustive to length 4 (quick) or 5 (thorough); fast-sweep family (1 ms interval, tick after every step) exhaustive to length 3; seeded random histories up to length 25 (quick) / 125 (thorough); configuration calls made late (while a cleaner runs, after a stop); C14 adds the TTL×interval boundary matrix in both setter orders, a timed survive-the-sweep scenario and a volume scenario (5 000 and 20 000 templates expiring together must be gone two sweeps later). C13 also replays model-guided schedules of concurrent cached compilations against the concurrent cache Model (driver `cc`: goroutines parked at the yield points of parseAST and singleflightDo, evictions and the passing of time interleaved; position after every step, result and cache contents compared). Each history runs in a FRESH process (hx cachechild) and on the Lean Model (driver `cache`); per op: outcome vs uncached compilation, parser calls, cache size, cleaner registered, effective config, cleanup goroutines started/exited. Non-trivial = history with at least one cached compilation; distinct by op list"
+		res.Rule = "histories over {cached render of A / A' (one byte differs) / unparsable / invalid-attribute doc / the same behind blank lines / A with trailing whitespace / a document with mj-class, mj-attributes, inline style and an invalid attribute after valid ones / documents that differ only in bytes that are not valid UTF-8 (in a comment inside mj-raw) or have the replacement character there, uncached render, advance TTL/2, advance TTL, stop}; compilations with debug tags on and off over one cached tree (in every order, across expiry and stop / restart); exhaustive to length 4 (quick) or 5 (thorough); fast-sweep family (1 ms interval, tick after every step) exhaustive to length 3; seeded random histories up to length 25 (quick) / 125 (thorough); configuration calls made late (while a cleaner runs, after a stop); C14 adds the TTL×interval boundary matrix in both setter orders, a timed survive-the-sweep scenario and a volume scenario (5 000 and 20 000 templates expiring together must be gone two sweeps later). C13 also replays model-guided schedules of concurrent cached compilations against the concurrent cache Model (driver `cc`: goroutines parked at the yield points of parseAST and singleflightDo, evictions and the passing of time interleaved; position after every step, result and cache contents compared). Each history runs in a FRESH process (hx cachechild) and on the Lean Model (driver `cache`); per op: outcome vs uncached compilation, parser calls, cache size, cleaner registered, effective config, cleanup goroutines started/exited. Non-trivial = history with at least one cached compilation; distinct by op list"
 		drv, err := startDriverPool(8)
 		if err != nil {
 			res.Disagree(Violation{Sig: "driver-missing", Kind: "history", What: err.Error()})
@@ -695,13 +716,14 @@ func runCacheProp(prop string) runFn {
 			hs = cacheHistories(tier, seed, prop == "C14")
 			// the head-reading document: cached again and again, next to uncached compilations of itself and of others
 			for _, ops := range [][]string{{"rc8", "rc8"}, {"rc8", "rc8", "rc8"}, {"ru8", "rc8", "rc8", "ru8"}, {"rc8", "rc0", "rc8", "rc3", "rc8"}, {"rc8", "s", "rc8", "rc8"},
-				{"rc6", "rc7", "rc6", "rc7"}, {"rc7", "rc6"}, {"rc6", "ru7", "rc7", "rc6"}, {"rc7", "s", "rc6", "rc7"}} {
+				{"rc6", "rc7", "rc6", "rc7"}, {"rc7", "rc6"}, {"rc6", "ru7", "rc7", "rc6"}, {"rc7", "s", "rc6", "rc7"},
+				{"rc9", "rc10", "rc9", "rc10"}, {"rc10", "rc9", "rc11", "rc10"}, {"rc11", "rc9", "ru10", "rc10", "rc11"}, {"rc9", "s", "rc10", "rc11", "rc9"}} {
 				hs = append(hs, cacheHist{ops: ops})
 			}
 			// forced hash collisions: the recorded finding C13-F1, and near misses that must not collide
 			if prop == "C13" {
-				hs = append(hs, cacheHist{ops: []string{"rc0", "rc1"}, hashes: []uint64{7, 7, 8, 9, 10, 11, 12, 13, 14}})
-				hs = append(hs, cacheHist{ops: []string{"rc0", "rc1", "rc0"}, hashes: []uint64{7, 8, 9, 10, 11, 12, 13, 14, 15}})
+				hs = append(hs, cacheHist{ops: []string{"rc0", "rc1"}, hashes: []uint64{7, 7, 8, 9, 10, 11, 12, 13, 14, 15, 16, 17}})
+				hs = append(hs, cacheHist{ops: []string{"rc0", "rc1", "rc0"}, hashes: []uint64{7, 8, 9, 10, 11, 12, 13, 14, 15, 16, 17, 18}})
 			}
 		}
 		res.Exhaustive = false
